@@ -48,13 +48,21 @@ def concrete_oracle(obs):
 
 def replay(n_waiters, second, status0, sched, expected_bad, meta, tries=30):
     # only operations that carry a hook point in the real code can be ordered by the turn-stile
-    def hook_label(lbl):
+    # a thread that closes the admission word is inside ActorProperties::drain: the hook point in front of *its* status write is `status.fetch_update`
+    drainers = {t for (_, t, _, lbl, _) in sched if lbl == 'message_admission.fetch_or'}
+
+    def hook_label(lbl, t=None):
+        if t in drainers and lbl not in HOOKED and lbl.startswith('status.') and lbl.split('.', 1)[1] in ('swap', 'store', 'fetch_or', 'fetch_and', 'fetch_min', 'fetch_max', 'compare_exchange'):
+            return 'status.fetch_update'
+        return hook_label0(lbl)
+
+    def hook_label0(lbl):
         # the hook point in front of the status write in `ActorProperties::set_status` is named after the operation the pinned source uses
         # (`status.fetch_max`); a changed tree may perform another atomic write at that place
         if lbl not in HOOKED and lbl.startswith('status.') and lbl.split('.', 1)[1] in ('swap', 'store', 'fetch_or', 'fetch_and', 'fetch_min', 'compare_exchange'):
             return 'status.fetch_max'
         return lbl
-    seq = ['%d:%s' % (t, hook_label(lbl)) for (_, t, _, lbl, _) in sched if hook_label(lbl) in HOOKED]
+    seq = ['%d:%s' % (t, hook_label(lbl, t)) for (_, t, _, lbl, _) in sched if hook_label(lbl, t) in HOOKED]
     obs = run_native(n_waiters, second, status0, seq)
     bad = concrete_oracle(obs)
     used = seq
